@@ -14,7 +14,7 @@ import re
 from vlib import core
 from gen import c10gen
 
-GRM_FIXED = False          # False: mirror of the current code (F0); True: mirror of the code after the proposed fix (F1)
+GRM_FIXED = True           # False: mirror of the current code (F0); True: mirror of the code after the proposed fix (F1)
 KNOWN_KEY = "prod_span/action_span of the added start production (and Eco-inserted productions) index out of bounds"
 CORR = "correspondence C10a: extracted build_grammar vs YaccGrammar accessors"
 DECL_TAGS = {"start_decl", "token_decl", "prec_decl", "epp", "avoid_insert", "implicit", "expect", "parse_param",
